@@ -455,6 +455,132 @@ theorem plain_message {σ F : Type} (b : Backend σ F) (ctx : Ctx) (msg : Msg σ
     simp only [hfmt, hargs]
   rw [hst, hpt]
 
+/-- the tags of the C checker about a single string or about `msgid` alone are none of the argument diagnostics -/
+theorem c_other_tags_names (repr pfx : Extra) (fo : Option CFmtX) (f : CFmtX) (t : TagCall)
+    (h : t ∈ cBackend.checkMsgids repr fo ++ cBackend.okTags false false pfx repr f) :
+    t.name = "qt-plural-format-mistaken-for-c-format" ∨ t.name = "c-format-string-redundant-flag" ∨
+    t.name = "c-format-string-non-portable-conversion" := by
+  rcases List.mem_append.1 h with h | h
+  · left
+    have h : t ∈ cCheckMsgids repr fo := h
+    unfold cCheckMsgids at h
+    split at h
+    · split at h
+      · split at h
+        · simp only [List.mem_singleton] at h; rw [h]
+        · cases h
+      · cases h
+    · cases h
+  · right
+    have h' : t ∈ f.warnings.map (cWarnTag pfx) := h
+    obtain ⟨w, _, rfl⟩ := List.mem_map.1 h'
+    cases w
+    · right; rfl
+    · left; rfl
+
+/-- **The statement's first sentence, for c-format, in one theorem.**  In a catalog with a usable charset declaration, for a
+    non-fuzzy, non-plural c-format message whose `msgid` and (non-empty) `msgstr` are valid printf strings — given by their
+    items — `check_message` reports the excess-arguments diagnostic iff `msgstr` consumes more arguments than `msgid`, the
+    missing-arguments diagnostic iff it consumes fewer, a type-mismatch diagnostic `(b, a)` iff some argument consumed by
+    both has type `a` in `msgid` and a different type `b` in `msgstr`; and whatever else it reports is a warning about one
+    of the two strings (redundant flag, non-portable conversion, Qt plural format). -/
+theorem c_plain_message_iff (ctx : Ctx) (msg : Msg (List Char)) (fl : Flags) (hdom : InDomain ctx fl)
+    (hpl : msg.msgidPlural = none) (hforms : msg.msgstrPlural = []) {src dst : List Item} (hs : Valid src) (hd : Valid dst)
+    (hid : msg.msgid = render src) (hstr : msg.msgstr = render dst) (hne : msg.msgstr ≠ []) :
+    ∃ fs fd tags, cParse (render src) = .ok fs ∧ cParse (render dst) = .ok fd ∧ checkMessage cBackend ctx msg fl = .ok tags ∧
+      (cExcessTag msg.pfx "msgid".toList fs "msgstr".toList fd ∈ tags ↔ Excess (typesOf (signature src)) (typesOf (signature dst))) ∧
+      (cMissingTag msg.pfx "msgid".toList fs "msgstr".toList fd ∈ tags ↔ Fewer (typesOf (signature src)) (typesOf (signature dst))) ∧
+      (∀ a b, cTypeTag msg.pfx "msgid".toList "msgstr".toList (a, b) ∈ tags ↔
+        ∃ i, TypeDiffAt (typesOf (signature src)) (typesOf (signature dst)) i a b) ∧
+      (∀ t ∈ tags, t = cExcessTag msg.pfx "msgid".toList fs "msgstr".toList fd ∨ t = cMissingTag msg.pfx "msgid".toList fs "msgstr".toList fd ∨
+        (∃ a b, t = cTypeTag msg.pfx "msgid".toList "msgstr".toList (a, b)) ∨
+        t.name = "qt-plural-format-mistaken-for-c-format" ∨ t.name = "c-format-string-redundant-flag" ∨
+        t.name = "c-format-string-non-portable-conversion") := by
+  obtain ⟨fs, fd, atags, hfs, hfd, hargs, h1, h2, h3, h4, _⟩ :=
+    c_args_tags_iff msg.pfx "msgid".toList "msgstr".toList false hs hd
+  have ht : cBackend.truthy msg.msgstr = true := by
+    show (!msg.msgstr.isEmpty) = true
+    cases hm : msg.msgstr with
+    | nil => exact absurd hm hne
+    | cons _ _ => rfl
+  have hp0 : cBackend.parse msg.msgid = .ok fs := by rw [hid]; exact hfs
+  have hp1 : cBackend.parse msg.msgstr = .ok fd := by rw [hstr]; exact hfd
+  have hmsg := plain_message cBackend ctx msg fl hdom hpl hforms fs fd hp0 ht hp1 atags hargs
+  refine ⟨fs, fd, _, hfs, hfd, hmsg, ?_, ?_, ?_, ?_⟩
+  all_goals rw [← List.append_assoc]
+  · rw [List.mem_append, ← h1]
+    constructor
+    · rintro (h | h)
+      · rcases c_other_tags_names _ _ _ _ _ h with hn | hn | hn <;>
+          simp [cExcessTag, tagExcessOrMissing] at hn
+      · exact h
+    · exact Or.inr
+  · rw [List.mem_append]
+    have h2' : cMissingTag msg.pfx "msgid".toList fs "msgstr".toList fd ∈ atags ↔
+        Fewer (typesOf (signature src)) (typesOf (signature dst)) := by
+      rw [h2]; simp [cTolerated]
+    rw [← h2']
+    constructor
+    · rintro (h | h)
+      · rcases c_other_tags_names _ _ _ _ _ h with hn | hn | hn <;>
+          simp [cMissingTag, tagExcessOrMissing] at hn
+      · exact h
+    · exact Or.inr
+  · intro a b
+    rw [List.mem_append, ← h3 a b]
+    constructor
+    · rintro (h | h)
+      · rcases c_other_tags_names _ _ _ _ _ h with hn | hn | hn <;>
+          simp [cTypeTag, tagTypeMismatch] at hn
+      · exact h
+    · exact Or.inr
+  · intro t htm
+    rcases List.mem_append.1 htm with h | h
+    · exact Or.inr (Or.inr (Or.inr (c_other_tags_names _ _ _ _ _ h)))
+    · rcases h4 t h with h | h | h
+      · exact Or.inl h
+      · exact Or.inr (Or.inl h)
+      · exact Or.inr (Or.inr (Or.inl h))
+
+/-- **C, `reorder_silent`, permutation form**: if the (argument number, type) references of the translation are a permutation
+    of those of the source, nothing is flagged. -/
+theorem c_reorder_silent_perm (pfx : Extra) (srcLoc dstLoc : List Char) (omittedOk : Bool) {src dst : List Item}
+    (hs : Valid src) (hd : Valid dst)
+    (h : ((positions (refs src)).map fun p => (p.1, p.2.type)).Perm ((positions (refs dst)).map fun p => (p.1, p.2.type))) :
+    ∃ fs fd, cParse (render src) = .ok fs ∧ cParse (render dst) = .ok fd ∧
+      checkArgsC pfx srcLoc fs dstLoc fd omittedOk = .ok [] := by
+  apply c_reorder_silent pfx srcLoc dstLoc omittedOk hs hd
+  intro j t
+  have hm := h.mem_iff (a := (j, t))
+  simp only [List.mem_map, Prod.mk.injEq] at hm
+  unfold PosType
+  constructor
+  · rintro ⟨e, he, rfl⟩
+    obtain ⟨p, hp, hp1, hp2⟩ := hm.1 ⟨(j, e), he, rfl, rfl⟩
+    exact ⟨p.2, by rw [← hp1]; exact hp, hp2⟩
+  · rintro ⟨e, he, rfl⟩
+    obtain ⟨p, hp, hp1, hp2⟩ := hm.2 ⟨(j, e), he, rfl, rfl⟩
+    exact ⟨p.2, by rw [← hp1]; exact hp, hp2⟩
+
+/-- **python-brace / perl-brace: a non-plural message of the domain reports exactly the argument diagnostics** (these two
+    checkers have no warnings and no `check_msgids`) -/
+theorem pybrace_plain_message (ctx : Ctx) (msg : Msg (BraceStr PyBraceSig)) (fl : Flags) (hdom : InDomain ctx fl)
+    (hpl : msg.msgidPlural = none) (hforms : msg.msgstrPlural = []) (src dst : PyBraceSig)
+    (h0 : msg.msgid.outcome = .ok src) (ht : msg.msgstr.truthy = true) (h1 : msg.msgstr.outcome = .ok dst)
+    (hs : BraceWf src) (hd : BraceWf dst) :
+    checkMessage pyBraceBackend ctx msg fl = checkArgsPyBrace msg.pfx "msgid".toList src "msgstr".toList dst false := by
+  obtain ⟨tags, htags, _⟩ := pybrace_args_tags_iff msg.pfx "msgid".toList "msgstr".toList false src dst hs hd
+  rw [plain_message pyBraceBackend ctx msg fl hdom hpl hforms src dst h0 ht h1 tags htags, htags]
+  rfl
+
+theorem perlbrace_plain_message (ctx : Ctx) (msg : Msg (BraceStr PerlBraceSig)) (fl : Flags) (hdom : InDomain ctx fl)
+    (hpl : msg.msgidPlural = none) (hforms : msg.msgstrPlural = []) (src dst : PerlBraceSig)
+    (h0 : msg.msgid.outcome = .ok src) (ht : msg.msgstr.truthy = true) (h1 : msg.msgstr.outcome = .ok dst) :
+    checkMessage perlBraceBackend ctx msg fl = checkArgsPerlBrace msg.pfx "msgid".toList src "msgstr".toList dst false := by
+  obtain ⟨tags, htags, _⟩ := perlbrace_args_tags_iff msg.pfx "msgid".toList "msgstr".toList false src dst
+  rw [plain_message perlBraceBackend ctx msg fl hdom hpl hforms src dst h0 ht h1 tags htags, htags]
+  rfl
+
 /-- **`invalid_msgstr_error`**: a non-empty `msgstr` that is not a valid format string is reported as a format-string
     error — and gives rise to no argument diagnostic. -/
 theorem invalid_msgstr_error {σ F : Type} (b : Backend σ F) (ctx : Ctx) (msg : Msg σ) (fl : Flags) (hdom : InDomain ctx fl)
